@@ -556,6 +556,12 @@ fn eval_programs() -> Vec<Vec<u8>> {
     ];
     // bra on an answer
     v.push(vec![0x70, 0x00, 0x28, 0x01, 0x00, 0x30, 0x31]);
+    // endless loops whose body is valid and asks the caller for something on every turn: only the
+    // iteration limit (which must count across resumes) ends them
+    v.push(vec![0x9c, 0x13, 0x2f, 0xfb, 0xff]); // L: call_frame_cfa ; drop ; skip L
+    v.push(vec![0x70, 0x00, 0x13, 0x2f, 0xfa, 0xff]); // L: breg0 0 ; drop ; skip L
+    v.push(vec![0x31, 0x06, 0x2f, 0xfc, 0xff]); // lit1 ; L: deref ; skip L
+    v.push(vec![0x91, 0x00, 0x13, 0x2f, 0xfa, 0xff]); // L: fbreg 0 ; drop ; skip L
     v
 }
 
